@@ -193,6 +193,18 @@ func VerifyFunction(p *Program, name string, opt Options) FnReport {
 		}
 		rep.Results = append(rep.Results, r)
 	}
+	for _, oa := range p.Spec.OverridesAll {
+		if oa[2] != name {
+			continue
+		}
+		bad := p.OverridesAllScan(oa[0], oa[1])
+		r := OblResult{Oblig: Oblig{Fn: name, Name: fc.Name + "/scan.overridesall." + oa[0], Kind: "scan.overrides", Where: oa[0], Text: oa[0] + " declares every error-returning method of its embedded " + oa[1]}, Status: "proved", Raw: "scan", Solver: "ssa-scan"}
+		if len(bad) > 0 {
+			r.Status = "failed"
+			r.Output = strings.Join(bad, "; ")
+		}
+		rep.Results = append(rep.Results, r)
+	}
 	for _, so := range p.Spec.StoredOnlyIn {
 		if so[1] != name {
 			continue
